@@ -30,6 +30,56 @@ func init() {
 	gens["scale"] = genScale
 	gens["c13.srcmemo"] = genSrcMemo
 	gens["c04.collide"] = genC04Collide
+	gens["c13.tail"] = genC13Tail
+}
+
+// genC13Tail: a FILE-backed list whose last line has no final newline; rules of the list are retrieved in a
+// random order (longer lines before the last one, too); every answer must equal a fresh engine's.
+func genC13Tail(r *rng, n int, w *bufio.Writer) {
+	fSilenceLogs()
+	dir, err := os.MkdirTemp("", "verif-tail")
+	if err != nil {
+		return
+	}
+	defer os.RemoveAll(dir)
+	for i := 0; i < n; i++ {
+		k := 2 + r.n(6)
+		var lines, hosts []string
+		for j := 0; j < k; j++ {
+			h := fmt.Sprintf("t%d%s.example", j, strings.Repeat("x", r.n(30)))
+			hosts = append(hosts, h)
+			lines = append(lines, pick(r, []string{"||" + h + "^", "0.0.0.0 " + h, "||" + h + "^$important", h}))
+		}
+		content := strings.Join(lines, pick(r, []string{"\n", "\r\n"})) // no newline after the last line
+		path := filepath.Join(dir, fmt.Sprintf("l%d.txt", i))
+		if os.WriteFile(path, []byte(content), 0o600) != nil {
+			return
+		}
+		mk := func() (*urlfilter.DNSEngine, *filterlist.RuleStorage) {
+			fl, ferr := filterlist.NewFileRuleList(1, path, false)
+			if ferr != nil {
+				panic(ferr)
+			}
+			s, _ := filterlist.NewRuleStorage([]filterlist.RuleList{fl})
+
+			return urlfilter.NewDNSEngine(s), s
+		}
+		e, st := mk()
+		order := append([]string{}, hosts...)
+		shuffle(r, order)
+		order = append(order, hosts[len(hosts)-1], hosts[0])
+		diff := ""
+		for _, h := range order {
+			fe, fs := mk()
+			got, want := scaleDNSAnswer(e, h), scaleDNSAnswer(fe, h)
+			_ = fs.Close()
+			if got != want && diff == "" {
+				diff = fmt.Sprintf("query %s: after history %s, fresh engine %s", h, got, want)
+			}
+		}
+		_ = st.Close()
+		fmt.Fprintf(w, "assert c13.tail %s = %s ## file list %q; %s\n", wb(content), wbool(diff == ""), content, noteStr(diff))
+	}
 }
 
 func scaleDNSAnswer(e *urlfilter.DNSEngine, host string) string {
